@@ -414,4 +414,86 @@ theorem chain_inj {K} {S : MacScheme K} (I : IdealMac S) {k k' id id' : Bytes} {
   have ⟨a, b, c⟩ := foldr_mac_inj I k k' id id' _ _ h
   exact ⟨a, b, List.reverse_inj.1 c⟩
 
+/-! ## The specification of the third stream (`Spec.validOk`) is the theorem's right-hand side -/
+
+theorem perm_of_three_mem {α} {l : List α} {a b c : α} (hl : l.length = 3) (hab : a ≠ b) (hac : a ≠ c) (hbc : b ≠ c)
+    (ha : a ∈ l) (hb : b ∈ l) (hc : c ∈ l) : l ~ [a, b, c] := by
+  match l, hl with
+  | [x, y, z], _ =>
+    simp only [mem_cons, not_mem_nil, or_false] at ha hb hc
+    rcases ha with rfl | rfl | rfl <;> rcases hb with rfl | rfl | rfl <;> rcases hc with rfl | rfl | rfl <;>
+      first
+        | exact absurd rfl hab
+        | exact absurd rfl hac
+        | exact absurd rfl hbc
+        | exact Perm.refl _
+        | exact Perm.cons _ (Perm.swap _ _ _)
+        | exact Perm.swap _ _ _
+        | exact (Perm.cons _ (Perm.swap _ _ _)).trans (Perm.swap _ _ _)
+        | exact (Perm.swap _ _ _).trans (Perm.cons _ (Perm.swap _ _ _))
+        | exact ((Perm.swap _ _ _).trans (Perm.cons _ (Perm.swap _ _ _))).trans (Perm.swap _ _ _)
+
+theorem spec_timeOk_eq (now : Int) (c : Bytes) :
+    Spec.timeOk now c = (TimePrefix.isPrefixOf c && verifyExpiry (c.drop TimePrefix.length) now) := by
+  unfold Spec.timeOk verifyExpiry
+  cases atoi (c.drop TimePrefix.length) <;> rfl
+
+theorem spec_timeOk_iff (now : Int) (c : Bytes) : Spec.timeOk now c = true ↔ ∃ s, c = TimePrefix ++ s ∧ verifyExpiry s now = true := by
+  rw [spec_timeOk_eq]
+  constructor
+  · intro h
+    simp only [Bool.and_eq_true] at h
+    exact ⟨c.drop TimePrefix.length, eq_append_of_isPrefixOf h.1, h.2⟩
+  · rintro ⟨s, rfl, hs⟩
+    simp only [Bool.and_eq_true, isPrefixOf_append, true_and]
+    have : (TimePrefix ++ s).drop TimePrefix.length = s := by simp
+    rw [this]; exact hs
+
+theorem exists_of_count_pos {p : Bytes → Bool} {l : List Bytes} (h : Spec.count p l = 1) : ∃ a ∈ l, p a = true := by
+  unfold Spec.count at h
+  match hf : l.filter p with
+  | [] => rw [hf] at h; cases h
+  | a :: _ =>
+    have : a ∈ l.filter p := by rw [hf]; simp
+    exact ⟨a, (mem_filter.1 this).1, (mem_filter.1 this).2⟩
+
+theorem count_perm {p : Bytes → Bool} {l₁ l₂ : List Bytes} (h : l₁ ~ l₂) : Spec.count p l₁ = Spec.count p l₂ := by
+  unfold Spec.count; exact (h.filter p).length_eq
+
+theorem user_not_time (u : Bytes) : TimePrefix.isPrefixOf (UserPrefix ++ u) = false := by
+  simp [UserPrefix, TimePrefix, List.isPrefixOf]
+
+/-- counting formulation ⇔ permutation formulation -/
+theorem spec_caveats_iff (cs : List Bytes) (u : Bytes) (now : Int) :
+    (cs.length = 3 ∧ Spec.count (· == Gen) cs = 1 ∧ Spec.count (· == UserPrefix ++ u) cs = 1 ∧ Spec.count (Spec.timeOk now) cs = 1) ↔
+      ∃ s, verifyExpiry s now = true ∧ cs ~ [Gen, UserPrefix ++ u, TimePrefix ++ s] := by
+  constructor
+  · rintro ⟨hl, hg, hu, ht⟩
+    obtain ⟨a, ha, hpa⟩ := exists_of_count_pos hg
+    obtain ⟨b, hb, hpb⟩ := exists_of_count_pos hu
+    obtain ⟨c, hc, hpc⟩ := exists_of_count_pos ht
+    have ea : a = Gen := by simpa using hpa
+    have eb : b = UserPrefix ++ u := by simpa using hpb
+    obtain ⟨s, ec, hs⟩ := (spec_timeOk_iff now c).1 hpc
+    subst ea eb ec
+    exact ⟨s, hs, perm_of_three_mem hl (Ne.symm (user_ne_gen u)) (Ne.symm (time_ne_gen s))
+      (by intro h
+          have : UserPrefix.isPrefixOf (TimePrefix ++ s) = true := by rw [← h]; exact isPrefixOf_append _ _
+          rw [time_not_user] at this; cases this) ha hb hc⟩
+  · rintro ⟨s, hs, hp⟩
+    have hT : Spec.timeOk now (TimePrefix ++ s) = true := (spec_timeOk_iff now _).2 ⟨s, rfl, hs⟩
+    have hTG : Spec.timeOk now Gen = false := by simp [spec_timeOk_eq, gen_not_time]
+    have hTU : Spec.timeOk now (UserPrefix ++ u) = false := by simp [spec_timeOk_eq, user_not_time]
+    have h1 : ((UserPrefix ++ u) == Gen) = false := by simpa using user_ne_gen u
+    have h2 : ((TimePrefix ++ s) == Gen) = false := by simpa using time_ne_gen s
+    have h3 : (Gen == UserPrefix ++ u) = false := by simpa using Ne.symm (user_ne_gen u)
+    have h4 : ((TimePrefix ++ s) == UserPrefix ++ u) = false := by
+      rw [beq_eq_false_iff_ne]; intro h
+      have : UserPrefix.isPrefixOf (TimePrefix ++ s) = true := by rw [h]; exact isPrefixOf_append _ _
+      rw [time_not_user] at this; cases this
+    refine ⟨by simpa using hp.length_eq, ?_, ?_, ?_⟩
+    · rw [count_perm hp]; simp [Spec.count, List.filter, h1, h2]
+    · rw [count_perm hp]; simp [Spec.count, List.filter, h3, h4]
+    · rw [count_perm hp]; simp [Spec.count, List.filter, hT, hTG, hTU]
+
 end V.Tokens
